@@ -417,8 +417,23 @@ class Archive(object):
 
         """
         items = kwargs.iteritems() if PY2 else kwargs.items()
-        for key,value in items:
-            self._setitem(key,value)
+
+        # All or nothing: if one entry cannot be added,
+        # the archive is left as it was before the call.
+        dicts = [
+            self._tagged_real, self._tagged_complex, self._untagged_real
+        ]
+        if hasattr(self,'_uid_to_intermediate'):
+            dicts.append(self._uid_to_intermediate)
+        saved = [ dict(d) for d in dicts ]
+        try:
+            for key,value in items:
+                self._setitem(key,value)
+        except Exception:
+            for d,d_saved in zip(dicts,saved):
+                d.clear()
+                d.update(d_saved)
+            raise
 
     def _getitem(self,key):
         """
